@@ -6,7 +6,7 @@ package pogreb
 
 // a segment of the table: open file with FILE-INV, metadata present
 // every segment file name has the extension .psg (it is created by segmentName or found by its extension)
-//@ spec func segOK(s *segment) bool = s != nil && extOf(s.name) == ".psg" && s.file != nil && s.meta != nil && fileInv(s.file) && s.file.size >= 512 && s.id < 32767
+//@ spec func segOK(s *segment) bool = s != nil && extOf(s.name) == ".psg" && s.file != nil && s.meta != nil && fileInv(s.file) && s.file.size >= 512 && s.file.size <= 0xffffffff && s.id < 32767
 
 // TABLE: every entry is a well-formed segment stored under its own id whose file is in the directory under its name
 //@ spec func dlTable(dl *datalog) bool = forall i int :: 0 <= i && i < 32767 && dl.segments[i] != nil ==> segOK(dl.segments[i]) && int(dl.segments[i].id) == i && dirFid[dl.opts.FileSystem][dl.segments[i].name] == fidOf[dl.segments[i].file.File]
@@ -18,7 +18,10 @@ package pogreb
 // compaction, in which case it is marked full so that the next write replaces it before using it.
 //@ spec func dlCurOK(dl *datalog) bool = dl.curSeg != nil && dl.curSeg.meta != nil && dl.curSeg.file != nil && dl.curSeg.file.File != nil && dl.curSeg.id < 32767 && (dl.segments[dl.curSeg.id] == dl.curSeg || dl.curSeg.meta.Full)
 
-//@ spec func dlInv(dl *datalog) bool = dl != nil && dl.opts != nil && dl.opts.FileSystem != nil && dlTable(dl) && dlDistinct(dl) && dlCurOK(dl)
+// NEWEST: only the current segment accepts writes; every other segment of the table is marked full
+//@ spec func dlOthersFull(dl *datalog) bool = forall i int :: 0 <= i && i < 32767 && dl.segments[i] != nil && dl.segments[i] != dl.curSeg ==> dl.segments[i].meta.Full
+
+//@ spec func dlInv(dl *datalog) bool = dl != nil && dl.opts != nil && dl.opts.FileSystem != nil && dlTable(dl) && dlDistinct(dl) && dlCurOK(dl) && dlOthersFull(dl)
 
 // SEALED-DURABLE (C06): every segment of the table that is not the current one is durable up to its length
 //@ spec func segDurable(s *segment) bool = fDur[fidOf[s.file.File]] == fLen[fidOf[s.file.File]]
